@@ -478,7 +478,7 @@ class IncomerTls(Incomer):
                                 errno.EHOSTDOWN,
                                 errno.ETIMEDOUT,
                                 errno.ECONNREFUSED,
-                                ssl.SSLEOFError):
+                                ssl.SSL_ERROR_EOF):
                 emsg = ("socket.error = {0}: IncomerTLS at {1} while receiving"
                         " from {2}\n".format(ex, self.ha, self.ca))
                 console.profuse(emsg)
@@ -529,7 +529,7 @@ class IncomerTls(Incomer):
                                 errno.EHOSTDOWN,
                                 errno.ETIMEDOUT,
                                 errno.ECONNREFUSED,
-                                ssl.SSLEOFError):
+                                ssl.SSL_ERROR_EOF):
                 emsg = ("socket.error = {0}: IncomerTLS at {1} while "
                         "sending to {2}\n".format(ex, self.ha, self.ca))
                 console.profuse(emsg)
